@@ -1361,7 +1361,7 @@ def run(ctx):
 
     import time
     t0 = time.time()
-    broken = ctx.lean_obligations(["ExoModel.Props.C06", "ExoModel.Props.C06Move"])
+    broken = ctx.lean_obligations(["ExoModel.Props.C06", "ExoModel.Props.C06Move", "ExoModel.Props.C06Rest"])
     for b in broken:
         ctx.violation("obligation:" + b, "proof obligation broken: " + b, {"obligation": b}, no_input=True)
     ctx.extra["phase_s"] = {"obligations": round(time.time() - t0, 1)}
